@@ -501,7 +501,9 @@ static void print_tokens(Token *tok) {
 
   Token *prev = NULL;
   for (; tok->kind != TK_EOF; tok = tok->next) {
-    if (prev && tok->at_bol)
+    // A '#' that a macro expanded to is not a directive; it would be
+    // read as one if it were the first token of a line.
+    if (prev && tok->at_bol && !(tok->origin && equal(tok, "#")))
       fprintf(out, "\n");
     else if (prev && (tok->has_space || would_fuse(prev, tok)))
       fprintf(out, " ");
